@@ -14,6 +14,7 @@ git -C /repo worktree add --detach "$W" HEAD >/dev/null 2>&1
 applies=true; (cd "$W" && git apply "$SD/patch.diff") || applies=false
 build=skipped; tests="skipped"; demo_with="not-run"; demo_without="not-run"
 if $applies; then
+  [ -d "$BASE/target" ] && cp -r "$BASE/target" "$W/target"     # warm start: third-party crates are not rebuilt
   (cd "$W" && cargo build --offline -j 8 >/tmp/confirm-$ID.build.log 2>&1) && build=ok || build=failed
   if [ $build = ok ]; then
     (cd "$W" && cargo test --workspace --no-fail-fast --offline -j 8 >/tmp/confirm-$ID.test.log 2>&1)
